@@ -100,6 +100,15 @@ class SimpleTool:
         return self.func(*args, **kwargs)
 
 
+class _BooleanNames(ast.NodeTransformer):
+    """Rewrites the names ``true`` / ``false`` into boolean constants."""
+
+    def visit_Name(self, node: ast.Name) -> ast.AST:
+        if node.id in ('true', 'false'):
+            return ast.copy_location(ast.Constant(value=(node.id == 'true')), node)
+        return node
+
+
 class Mitochondria:
     """
     Powerhouse of the Cell: Executes deterministic computations safely.
@@ -442,11 +451,11 @@ class Mitochondria:
         More complex than glycolysis - like the Krebs cycle in
         the mitochondrial matrix.
         """
-        # Normalize Python boolean literals
-        expression = expression.replace('True', '1').replace('False', '0')
-        expression = expression.replace('true', '1').replace('false', '0')
-
         tree = ast.parse(expression, mode='eval')
+
+        # Normalize lowercase boolean names (true/false). This is done on the
+        # parsed tree so that the contents of string literals are left alone.
+        tree = _BooleanNames().visit(tree)
         return bool(self._compute_node(tree.body))
 
     def _oxidative_phosphorylation(self, expression: str) -> Any:
